@@ -56,8 +56,9 @@ def run(tier, seed):
                        "rule": "runtime contract of ProtocolEnumMeta.__call__ (declared ordinal -> the declared member object; any "
                                "other int -> instance, ==, hash, int(), name Unrecognized(n), value; members unchanged) on 4 "
                                "hand-written enums + every enum the generator emits for the realistic corpus x integers "
-                               "-300..999, EO range boundaries, 2^31, 2^63, 10^30, seeded random ints, shuffled construction "
-                               "order; distinct = distinct (enum, integer) pairs; per interpreter",
+                               "-300..999, EO range boundaries, 2^31, 2^63, 10^30, seeded random ints, and integers that are not plain ints (the enum's own "
+                               "members, bools, members of other enums, int-subclass instances, Unrecognized instances fed back), "
+                               "shuffled construction order; distinct = distinct (enum, integer) pairs; per interpreter",
                        "samples": [s for o in outs for s in o["samples"]][:8],
                        "interpreters": [o["python"] for o in outs], "enums": [o["enums"] for o in outs],
                        "bounded": True},
